@@ -125,6 +125,13 @@ def entry_variant(rec, rnd):
     return rec
 
 
+def pad_types(jobs):
+    def pad(t):
+        n = sum(ord(c) for c in t)
+        return t + " " if n % 3 == 0 else (" " + t if n % 3 == 1 else t)
+    return [[(pad(t), preds) for t, preds in j] for j in jobs]
+
+
 def write_jobs(d: Path, jobs, offset=0, jn="wf"):
     d.mkdir(parents=True, exist_ok=True)
     for i, j in enumerate(jobs):
@@ -250,6 +257,8 @@ Eval vm_compute in (4%nat, idx (fun c => let '(ops, st, tn, o, i) := c in same (
         rnd.shuffle(jobs)
         nch = rnd.choice([2, 2, 3]) if len(jobs) >= 3 else 2
         cuts = sorted(rnd.sample(range(1, len(jobs)), nch - 1))
+        if len(cases) % 4 == 3:      # event types with a leading / trailing blank (values must survive the model file byte for byte)
+            jobs = pad_types(jobs)
         cases.append(dict(rec=rec, jobs=jobs, cuts=cuts, jn=JOB_NAMES[len(cases) % len(JOB_NAMES)]))
     _t0 = _t.time()
     with ThreadPoolExecutor(max_workers=common.NPROC) as ex:
